@@ -634,7 +634,7 @@ func (c *lchain) process(b types.Block, bs consensus.V1BlockSupplement, apply bo
 			r.violate("c09.apply-mutates", "ApplyBlock modified its inputs (%s block at child height %d)", class, c.child())
 		}
 	}
-	btoks, kindsOK := blockToks(cs, b, bs, hcode, nextMedian, c.proofOKFn())
+	btoks, kindsOK, freshOK := blockToks(cs, b, bs, hcode, nextMedian, c.proofOKFn())
 	step := append([]string{op}, btoks...)
 	c.steps = append(c.steps, step...)
 	c.nsteps++
@@ -663,7 +663,12 @@ func (c *lchain) process(b types.Block, bs consensus.V1BlockSupplement, apply bo
 	}
 	c.want = append(c.want, hx(uint64(natt)))
 	// the ID discipline of Ledger/Kinds.v, computed here from the typed IDs and by the model from the block it parsed
-	c.want = append(c.want, hbool(kindsOK))
+	c.want = append(c.want, hbool(kindsOK), hbool(freshOK))
+	if freshOK {
+		r.count("siacoin-ids-fresh")
+	} else {
+		r.count("siacoin-ids-reused")
+	}
 	if kindsOK {
 		r.count("ids-name-one-kind")
 	} else {
